@@ -1,4 +1,5 @@
 import HeimdallModel.Lemmas.RepoInv
+import HeimdallModel.Lemmas.RepoLive
 import HeimdallModel.Props.C02
 /-!
 # C06 — after any rule-set history, matching equals a fresh load of the current rule sets
@@ -108,5 +109,42 @@ theorem c06_deleted_never_match (s s' : Repo) (src : String) (hinv : RepoInv s)
           have : j ∈ items.filter (fun i => i.pat = n.pat) := by rw [hfl]; exact hj
           exact (List.mem_filter.mp this).1
         exact hsrc j hjm (by rw [hje]; exact hsrc')
+
+/-- **Deleting a rule set always takes effect.** After any history, `deleteRuleSet` is applied (never rejected),
+provided that two route expressions of one rule id that denote the same tree node are written identically — the only
+way to violate this is the redundant backslash alias `/\\c` ≡ `/\c`. -/
+theorem c06_delete_succeeds (ops : List RepoOp) (src : String)
+    (hna : NoAlias (targets ((Repo.run ops).known.filter (·.src == src)))) :
+    ∃ s', (Repo.run ops).apply (.del src) = some s' := by
+  obtain ⟨t', ht'⟩ := removeRules_succeeds src _ (c06_inv_run ops) hna
+  refine ⟨⟨(Repo.run ops).known.filter (·.src != src), t'⟩, ?_⟩
+  simp only [Repo.apply, Repo.deleteRuleSet, ht']
+
+/-- ... and after it no request is served by a rule of that rule set any more -/
+theorem c06_delete_effective (ops : List RepoOp) (src : String) (hsrc : src ≠ "config")
+    (hna : NoAlias (targets ((Repo.run ops).known.filter (·.src == src))))
+    (hasDefault : Bool) (q : ReqView) (rid : String) :
+    ((Repo.run (ops ++ [.del src])).serve hasDefault q).rule ≠ some (src, rid) := by
+  obtain ⟨s', hs'⟩ := c06_delete_succeeds ops src hna
+  have hrun : Repo.run (ops ++ [.del src]) = s' := by
+    have : (Repo.run ops).step (.del src) = s' := by simp [Repo.step, hs']
+    rw [← this]
+    simp [Repo.run, List.foldl_append]
+  rw [hrun]
+  rcases c06_deleted_never_match _ s' src (c06_inv_run ops) hs' hasDefault q rid with h | h
+  · exact h
+  · exact absurd h hsrc
+
+/-- an update is rejected only because of its *new* rules (conflicting or invalid expressions), never because the
+old version could not be removed -/
+theorem c06_update_removal_succeeds (ops : List RepoOp) (src : String)
+    (hna : NoAlias (targets ((Repo.run ops).known.filter (·.src == src)))) :
+    ∃ t', removeRules (Repo.run ops).index [] ((Repo.run ops).known.filter (·.src == src)) = some t' :=
+  removeRules_succeeds src _ (c06_inv_run ops) hna
+
+example : NoAlias [("r1", "/a/:x"), ("r1", "/a/:x"), ("r1", "/b"), ("r2", "/a/:x")] := by
+  intro a ha b hb h1 h2
+  simp only [List.mem_cons, List.mem_nil_iff, or_false] at ha hb
+  rcases ha with rfl | rfl | rfl | rfl <;> rcases hb with rfl | rfl | rfl | rfl <;> first | rfl | (revert h2; decide) | (revert h1; decide)
 
 end Heimdall.Props.C06
